@@ -1,15 +1,19 @@
 """C18: system files round-trip (npz directory, _tb.dat, _hr.dat + Wannier-centre file).
 
 spec  : SysStore.tla (token layout of the three formats, the readers as line cursors, the npz directory with its stale
-        files), MC_SysStore.tla (state machine SaveNpz/LoadNpz/WriteTb/ReadTb/WriteHr/ReadHr over a family of systems with
-        every num_wann in 1..4, action sequences <= MAXLEN, the behaviour kept in `hist`), MC_SysFiles.tla (one state per
-        system x Ndegen pattern: file tokens and reader results), SysStoreRec.tla (record validation)
-bind  : every TLC behaviour (leaf state) is replayed on real System_R objects in a scratch directory: the projection
-        (lattice, centres, R list, every matrix element, periodic, point group) of each reloaded system is compared exactly
-        with the specification's system, errors with the specification's errors; the files written by the real code are
-        tokenised and compared with the specification's token tables, the specification's token tables (including Ndegen
-        patterns the code never writes) are rendered and given to the real readers; real round trips of seeded random dyadic
-        systems (from_sparse) are recorded and validated by TLC.
+        files; two systems are the same when they have the same set of R-vectors and the same block per R-vector),
+        MC_SysStore.tla (state machine SaveNpz/LoadNpz/WriteTb/ReadTb/WriteHr/ReadHr over a family of systems with every
+        num_wann in 1..4, action sequences <= MAXLEN, the behaviour kept in `hist`), MC_SysFiles.tla (one state per
+        system x Ndegen pattern: file tokens and reader results, both phase conventions of _tb.dat),
+        SysStoreRec.tla (record validation)
+bind  : TLC behaviours (leaf states) are replayed on real System_R objects in a scratch directory: what the statement names
+        (lattice, centres, R-vectors as a set, the block of every matrix per R-vector; for the npz directory also periodic,
+        is_phonon, point group as a set) is compared exactly with the specification's system; the specification's token
+        tables (Wannier90 layout, including Ndegen patterns the code never writes) are rendered and given to the real
+        readers; real round trips of seeded random dyadic systems (from_sparse) are recorded and validated by TLC; seeded
+        random non-dyadic systems are round-tripped and compared at the precision of the formats.
+        HOW the code does it (tokens of the files it writes, names of the files in the directory, exception classes, order of
+        R-vectors and group elements, reader step by step) is reported as information only.
 """
 import os
 import re
@@ -19,26 +23,47 @@ import shutil
 import numpy as np
 
 from .. import tlc, ftable, tlaparse
-from ..common import Report, MachineryError, seed, quiet, workdir
+from ..common import Report, MachineryError, seed, quiet, workdir, WORK
 
 PROPS = {
     "C18": dict(level="model_checking",
-                technique="TLC exhaustive on SysStore.tla/MC_SysStore.tla (state machine over a store of exact systems and abstract files, all action sequences up to the bound, token-level file layout) + replay of every TLC behaviour on real System_R objects and files + TLC validation of recorded real round trips",
+                technique="TLC exhaustive on SysStore.tla/MC_SysStore.tla (state machine over a store of exact systems and abstract files, all action sequences up to the bound, token-level file layout) + replay of TLC behaviours (all of them in the thorough tier, a seeded class-covering sample in the quick tier) on real System_R objects and files + TLC validation of recorded real round trips",
                 text="TLC checks TbRoundTrip / HrRoundTrip / NpzRoundTrip / WellFormed on every behaviour of at most MAXLEN persistence "
                      "actions for a family of systems (num_wann 1..4 including odd, non-orthogonal lattice, R lists in non-symmetric order, "
-                     "without -R partners, longer than one Ndegen line, with/without AA and a further matrix, several point groups) and "
-                     "the inverse property of the readers on the token tables for several Ndegen patterns; every behaviour is executed on "
-                     "the real to_npz/from_npz, to_tb_file/from_tb_file, to_hr_file/from_hr_file with exact comparison of the projections and "
-                     "of the file tokens; random dyadic systems are round-tripped on the real code and every clause of SysStoreRec is "
-                     "evaluated on the records by TLC; bands and Berry curvature of original and reloaded systems are compared numerically.",
-                note="all numbers are multiples of 1/8 (exact in floating point and in the printed formats); a _tb.dat file carries the "
-                     "centres only through the diagonal of AA(R=0) (precondition AADiagZero / centres passed, DESIGN.md 7.2); the lattice "
-                     "is an argument of the _hr.dat reader; digit-level fidelity beyond exactly printable values is exercised, not specified",
+                     "without -R partners, with/without AA and a further matrix, several point groups, is_phonon) and the inverse "
+                     "property of the readers on the token tables (R lists of 15, 16 and 17 vectors around the Ndegen line length, several "
+                     "Ndegen patterns, both phase conventions of _tb.dat); behaviours are executed on the real to_npz/from_npz, "
+                     "to_tb_file/from_tb_file, to_hr_file/from_hr_file (quick: seeded sample covering every class (parity of num_wann, "
+                     "action, options, position of R=0); thorough: all) and what comes back is compared exactly, up to the order of "
+                     "R-vectors and group elements; random dyadic systems are round-tripped on the real code and the C18 clauses of "
+                     "SysStoreRec are evaluated on the records by TLC; random non-dyadic systems (magnitudes 1e-9..1e3, hexagonal "
+                     "lattice and point group, is_phonon) are compared at the precision of the formats; bands and Berry curvature of "
+                     "original and reloaded systems are compared numerically.",
+                note="the exact part uses multiples of 1/8 (exact in floating point and in the printed formats); printed precision is "
+                     "decided by the numeric part `precision` (tb/hr: relative 1e-7 per real component = 20 x the half-ulp of %15.8e; "
+                     "centre file: exact repr, 1e-7 absolute for the zeroing threshold; lattice and npz: bit-exact); a _tb.dat file carries "
+                     "the centres only through the diagonal of AA(R=0) (precondition AADiagZero / centres passed, DESIGN.md 7.2); the lattice "
+                     "is an argument of the _hr.dat reader; layout of the written files, file names inside the directory, exception "
+                     "classes and the step-by-step reader model are information (parts `layout_information`, `model_conformance`), "
+                     "not violations",
                 ref="DESIGN.md 3.4"),
 }
 
 GEN_NAMES = {0: [], 1: ["Inversion"], 2: ["C4z", "TimeReversal"]}
 KPTS = [(0.1, 0.2, 0.3), (0.37, -0.21, 0.45)]
+# names tried through the public has_R_mat when the private dictionary of matrices is not there any more
+KNOWN_MATRICES = ["Ham", "AA", "BB", "CC", "SS", "SR", "SH", "SHR", "SA", "SHA", "OO", "GG", "FF"]
+INFO_CLAUSES = {"file_layout", "reader_model", "files_written"}
+SKIPPED = {}
+
+
+def skipped_private(what, why):
+    SKIPPED[what] = str(why)[:160]
+
+
+def cpu():
+    t = os.times()
+    return t.user + t.system + t.children_user + t.children_system
 
 
 # --------------------------------------------------------------------------- real systems <-> specification records
@@ -55,6 +80,32 @@ def c8(x, what):
     x = np.asarray(x)
     re_, im_ = to8(x.real, what), to8(x.imag, what)
     return np.stack([np.array(re_), np.array(im_)], axis=-1).tolist()
+
+
+def matrix_names(s):
+    """names of the real-space matrices of a system (guarded adapter around the private dictionary)"""
+    d = getattr(s, "_XX_R", None)
+    if isinstance(d, dict):
+        return list(d.keys())
+    skipped_private("System_R._XX_R", "attribute gone; matrices enumerated through has_R_mat over " + ",".join(KNOWN_MATRICES))
+    return [k for k in KNOWN_MATRICES if s.has_R_mat(k)]
+
+
+def pg_elements(s):
+    """[(signed 3x3 matrix, TR)] of the point group, None when it cannot be read any more"""
+    try:
+        out = []
+        for sym in s.pointgroup.symmetries:
+            try:
+                d = sym.as_dict()
+                M, tr = np.asarray(d["R"], dtype=float), bool(d["TR"])
+            except (AttributeError, KeyError, TypeError):
+                M, tr = np.asarray(sym.R, dtype=float) * (-1 if sym.Inv else 1), bool(sym.TR)
+            out.append((M, tr))
+        return out
+    except AttributeError as ex:
+        skipped_private("PointGroup.symmetries", ex)
+        return None
 
 
 def build_system(rec, gens=None):
@@ -74,52 +125,86 @@ def build_system(rec, gens=None):
         if gens is not None:
             s.set_pointgroup(gens)
         s.periodic = np.array(rec["periodic"], dtype=bool)
+        s.is_phonon = bool(rec.get("phon", False))
     return s
 
 
 def project(s):
-    """real System_R -> dict of exact values in the units of the specification"""
+    """real System_R -> dict of exact values in the units of the specification (R and pg in the object's own order)"""
     nw = int(s.num_wann)
     out = dict(nw=nw, lat=to8(s.real_lattice, "real_lattice"), cen=to8(s.wannier_centers_cart, "wannier_centers_cart"),
-               R=[[int(x) for x in r] for r in s.rvec.iRvec], mats={}, periodic=[bool(x) for x in s.periodic])
-    for k, v in s._XX_R.items():
-        out["mats"][k] = c8(v, k)
-    pg = []
-    for sym in s.pointgroup.symmetries:
-        M = np.asarray(sym.R, dtype=float) * (-1 if sym.Inv else 1)
-        Mi = np.rint(M)
-        if np.max(np.abs(M - Mi)) > 1e-9:
-            raise ValueError("non-integer point group element")
-        pg.append([Mi.astype(int).tolist(), bool(sym.TR)])
-    out["pg"] = pg
+               R=[[int(x) for x in r] for r in s.rvec.iRvec], mats={}, periodic=[bool(x) for x in s.periodic],
+               phon=bool(np.asarray(getattr(s, "is_phonon", False))))
+    for k in matrix_names(s):
+        out["mats"][k] = c8(s.get_R_mat(k), k)
+    els = pg_elements(s)
+    if els is None:
+        out["pg"] = None
+    else:
+        pg = []
+        for M, tr in els:
+            Mi = np.rint(M)
+            if np.max(np.abs(M - Mi)) > 1e-9:
+                raise ValueError("non-integer point group element")
+            pg.append([Mi.astype(int).tolist(), tr])
+        out["pg"] = pg
     return out
+
+
+def L(x):
+    if isinstance(x, (tuple, list)):
+        return [L(y) for y in x]
+    return x
 
 
 def spec_sys(st):
     """parsed TLA+ system -> plain python (lists)"""
-    def L(x):
-        if isinstance(x, (tuple, list)):
-            return [L(y) for y in x]
-        return x
     mats = {k: L(v) for k, v in (st["mats"].items() if isinstance(st["mats"], dict) else st["mats"])}
     pg = sorted([[L(m), bool(t)] for m, t in st["pg"]])
-    return dict(nw=st["nw"], lat=L(st["lat"]), cen=L(st["cen"]), R=L(st["R"]), mats=mats, periodic=[bool(x) for x in st["periodic"]], pg=pg)
+    return dict(nw=st["nw"], lat=L(st["lat"]), cen=L(st["cen"]), R=L(st["R"]), mats=mats, periodic=[bool(x) for x in st["periodic"]],
+                pg=pg, phon=bool(st.get("phon", False)))
 
 
-def diff_sys(exp, got, pg_as_set=True):
-    """names of the fields that differ"""
-    bad = []
-    for k in ("nw", "lat", "cen", "R", "periodic"):
+def by_R(p, k):
+    """matrix k of a projection as {R-vector: block}; None when the table does not fit the R list"""
+    tab = p["mats"][k]
+    if len(tab) != len(p["R"]):
+        return None
+    return {tuple(r): tab[i] for i, r in enumerate(p["R"])}
+
+
+def diff_sys(exp, got, names=None, carried=("periodic", "pg", "phon")):
+    """names of the things the statement of C18 names that differ: lattice, centres, the set of R-vectors, the block of every
+    matrix in `names` (default: all of exp) per R-vector; `carried`: further fields the format carries (npz directory).
+    Returns (bad, info): info = differences that are not part of the statement (order of R-vectors, further matrices)"""
+    bad, info = [], []
+    for k in ("nw", "lat", "cen"):
         if exp[k] != got[k]:
             bad.append(k)
-    if set(exp["mats"]) != set(got["mats"]):
-        bad.append("matrix_names")
-    for k in exp["mats"]:
-        if k in got["mats"] and exp["mats"][k] != got["mats"][k]:
-            bad.append("mats." + k)
-    if sorted(exp["pg"]) != sorted(got["pg"]):
-        bad.append("pg")
-    return bad
+    rs_e, rs_g = sorted(map(tuple, exp["R"])), sorted(map(tuple, got["R"]))
+    if rs_e != rs_g:
+        bad.append("R")
+    elif exp["R"] != got["R"]:
+        info.append("R_order")
+    names = list(exp["mats"]) if names is None else list(names)
+    for k in names:
+        if k not in got["mats"]:
+            bad.append("missing_matrix." + k)
+        elif "R" not in bad:
+            a, b = by_R(exp, k), by_R(got, k)
+            if a is None or b is None or a != b:
+                bad.append("mats." + k)
+    extra = sorted(set(got["mats"]) - set(names))
+    if extra:
+        info.append("further_matrices:" + ",".join(extra))
+    for k in carried:
+        if k == "pg":
+            if exp["pg"] is not None and got["pg"] is not None:
+                if sorted(exp["pg"]) != sorted(got["pg"]):          # a set: the order of the elements is not compared
+                    bad.append("pg")
+        elif exp.get(k) != got.get(k):
+            bad.append(k)
+    return bad, info
 
 
 # --------------------------------------------------------------------------- text files <-> token tables
@@ -141,50 +226,55 @@ def tokenize(path, header=True):
                 else:
                     x = float(t) * 8
                     if abs(x - round(x)) > 1e-9:
-                        raise ValueError(f"non-dyadic token {t} in {path}")
+                        raise ValueError(f"non-dyadic token {t} in {os.path.basename(path)}")
                     toks.append(int(round(x)))
             out.append(toks)
     return out
+
+
+def try_tokenize(path, header=True):
+    """-> (tokens, None) or (None, problem): a file of the real code that cannot be tokenised is information about its
+    layout; whether the numbers survive is decided by the round trip through the real reader"""
+    try:
+        return tokenize(path, header), None
+    except (ValueError, OSError) as ex:
+        return None, str(ex)[:160]
 
 
 def fl(x):
     return f"{x / 8:.10e}"
 
 
-def render_tb(lines, path):
+def render_tb(lines, path, nw, nR):
+    """token table -> _tb.dat in the Wannier90 layout (positions decide what a line is, not its length)"""
+    nl = (nR + 14) // 15
+    blk = nw * nw + 2
     with open(path, "w") as f:
         for n, l in enumerate(lines):
             if n == 0:
                 f.write("rendered from the specification\n")
             elif n in (1, 2, 3):
                 f.write(" ".join(fl(x) for x in l) + "\n")
-            elif len(l) in (4, 8):
-                f.write(f"{l[0]:3d} {l[1]:3d} " + " ".join(fl(x) for x in l[2:]) + "\n")
-            else:
+            elif n < 6 + nl:
                 f.write("  ".join(str(x) for x in l) + "\n")
+            else:
+                pos = (n - 6 - nl) % blk
+                if pos <= 1:
+                    f.write("  ".join(str(x) for x in l) + "\n")
+                else:
+                    f.write(f"{l[0]:3d} {l[1]:3d} " + " ".join(fl(x) for x in l[2:]) + "\n")
 
 
-def render_hr(lines, path):
+def render_hr(lines, path, nR):
+    nl = (nR + 14) // 15
     with open(path, "w") as f:
         for n, l in enumerate(lines):
             if n == 0:
                 f.write("rendered from the specification\n")
-            elif len(l) == 7:
-                f.write(" ".join(f"{x:3d}" for x in l[:5]) + " " + " ".join(fl(x) for x in l[5:]) + "\n")
-            else:
+            elif n < 3 + nl:
                 f.write("  ".join(str(x) for x in l) + "\n")
-
-
-def render_wcc(lines, path):
-    with open(path, "w") as f:
-        for l in lines:
-            f.write(" ".join(f"{x / 8:10}" for x in l) + "\n")
-
-
-def L(x):
-    if isinstance(x, (tuple, list)):
-        return [L(y) for y in x]
-    return x
+            else:
+                f.write(" ".join(f"{x:3d}" for x in l[:5]) + " " + " ".join(fl(x) for x in l[5:]) + "\n")
 
 
 # --------------------------------------------------------------------------- calls of the real code
@@ -192,17 +282,23 @@ def real_call(fn, *a, **kw):
     try:
         with quiet():
             return fn(*a, **kw), None
-    except Exception as ex:   # the class of the exception is what is compared
+    except Exception as ex:   # any exception of the library is an answer; its class is information
         return None, type(ex).__name__ + ": " + str(ex)[:200]
 
 
-def read_tb(path, needAA, given, cen8):
+def read_tb(path, needAA, given, cen8, conv2=True, by_seedname=False):
     from wannierberri.system.system_R import System_R
-    kw = dict(tb_file=path, silent=True)
+    kw = dict(silent=True)
+    if by_seedname:
+        kw["seedname"] = path
+    else:
+        kw["tb_file"] = path
     if needAA:
         kw["berry"] = True
     if given:
         kw["wannier_centers_cart"] = np.array(cen8, dtype=float) / 8
+    if not conv2:
+        kw["convention_II_to_I"] = False
     return real_call(System_R.from_tb_file, **kw)
 
 
@@ -225,12 +321,14 @@ def bands(s):
     return res
 
 
+SITE = {"SaveNpz": "to_npz", "LoadNpz": "from_npz", "WriteTb": "to_tb_file", "ReadTb": "from_tb_file",
+        "WriteHr": "to_hr_file", "ReadHr": "from_hr_file"}
+
+
 def site_key(op, what, e=None, nw=None):
-    site = {"SaveNpz": "to_npz", "LoadNpz": "from_npz", "WriteTb": "to_tb_file", "ReadTb": "from_tb_file",
-            "WriteHr": "to_hr_file", "ReadHr": "from_hr_file"}[op]
     if op == "ReadHr" and what.startswith("exception") and nw is not None and nw % 2 == 1 and e is not None and not e["given"]:
         return "read_WCC_WT_format:odd_num_wann"
-    return f"{site}:{what}"
+    return f"{SITE[op]}:{what}"
 
 
 class _Collect:
@@ -251,21 +349,30 @@ class Replayer:
         self.maxdev = 0.0
         self.numeric = 0
         self.ops = {}
+        self.info = {}          # differences that are not part of the statement: counted
+
+    def note(self, what):
+        self.info[what] = self.info.get(what, 0) + 1
 
     def replay(self, st, origin="tlc-behaviour"):
-        """st: parsed TLC state of MC_SysStore (store, hist). Returns True when the real code followed the specification"""
+        """st: parsed TLC state of MC_SysStore (store, hist). Returns True when the real code did what the statement says"""
         self.n += 1
         d = os.path.join(self.wd, f"b{self.n}")
         os.makedirs(d, exist_ok=True)
+        try:
+            return self._replay(st, origin, d)
+        finally:
+            shutil.rmtree(d, ignore_errors=True)
+
+    def _replay(self, st, origin, d):
         hist = st["hist"]
         par = hist[0]["par"]
         sstore = [spec_sys(x) for x in st["store"]]
-        herm = par[1] != 3
+        herm = par[1] not in (3, 7) and not sstore[0]["phon"]
         real = {1: build_system(sstore[0], GEN_NAMES[par[5]])}
         info = dict(origin=origin, params=dict(nw=par[0], shape=par[1], pat=par[2], AA=par[3], SS=par[4], grp=par[5]),
                     ops=[dict(op=e["op"], src=e["src"], needAA=e["needAA"], given=e["given"]) for e in hist[1:]])
-        p0 = project(real[1])
-        b0 = diff_sys(sstore[0], p0)
+        b0, _ = diff_sys(sstore[0], project(real[1]))
         if b0:
             raise MachineryError(f"harness cannot build the specification's system: {b0} {info}")
         ok = True
@@ -286,7 +393,7 @@ class Replayer:
                 else:
                     _, ex = real_call(sysr.to_hr_file, seedname=hrseed)
                 if ex:
-                    self.rep.violation(site_key(op, "exception:" + ex.split(":")[0]), dict(info, step=e["op"], exception=ex))
+                    self.rep.violation(site_key(op, "exception"), dict(info, step=e["op"], exception=ex))
                     ok = False
                     break
                 continue
@@ -298,15 +405,16 @@ class Replayer:
             else:
                 got, ex = read_hr(hrseed, src["lat"], e["given"], src["cen"])
             if e["err"] != "":
+                # the file does not carry what the call asks for: the statement says nothing; what the code does is information
                 if ex is None:
-                    self.rep.violation(site_key(op, "unexpected_success"), dict(info, step=op, expected_error=e["err"]))
-                    ok = False
+                    self.note(f"{SITE[op]}:success_where_the_model_fails")
                 elif e["err"] not in ("eof",) and not ex.startswith(e["err"]):
-                    self.rep.violation(site_key(op, "other_exception"), dict(info, step=op, expected_error=e["err"], got=ex))
-                    ok = False
+                    self.note(f"{SITE[op]}:other_exception_class:" + ex.split(":")[0])
+                if ex is None:
+                    break                       # the model has no system for this step: the rest cannot be followed
                 continue
             if ex is not None:
-                self.rep.violation(site_key(op, "exception:" + ex.split(":")[0], e, nw),
+                self.rep.violation(site_key(op, "exception", e, nw),
                                    dict(info, step=op, needAA=e["needAA"], centres_passed=e["given"], num_wann=nw, exception=ex,
                                         expected="the reader returns the system that was written"))
                 ok = False
@@ -318,7 +426,16 @@ class Replayer:
                 self.rep.violation(site_key(op, "projection"), dict(info, step=op, problem=str(ve)))
                 ok = False
                 break
-            bad = diff_sys(exp, gp)
+            if op == "LoadNpz":
+                # a re-used directory keeps files of matrices the saved system does not have (model: stale files): only the
+                # matrices of the saved system are part of the statement
+                bad, inf = diff_sys(exp, gp, names=list(src["mats"]))
+            elif op == "ReadTb":
+                bad, inf = diff_sys(exp, gp, names=["Ham"] + (["AA"] if e["needAA"] else []), carried=())
+            else:
+                bad, inf = diff_sys(exp, gp, names=["Ham"], carried=())
+            for x in inf:
+                self.note(f"{SITE[op]}:{x.split(':')[0]}")
             if bad:
                 self.rep.violation(site_key(op, "projection"), dict(info, step=op, differing_fields=bad,
                                                                     expected={k: exp[k] for k in ("nw", "lat", "cen", "R")},
@@ -326,11 +443,6 @@ class Replayer:
                 ok = False
                 break
             real[e["dst"]] = got
-            if op == "LoadNpz" and e["src"] in real:
-                # the order of the group elements has to survive as well (PointGroup(dictionary=...))
-                if project(real[e["src"]])["pg"] != gp["pg"] and e["fresh"]:
-                    self.rep.violation("from_npz:pointgroup_order", dict(info, step=op))
-                    ok = False
             # bands and Berry curvature of the reloaded system (numeric part of the statement)
             if herm and e["src"] in real and (e["fresh"] or op != "LoadNpz"):
                 a, b = bands(real[e["src"]]), bands(got)
@@ -338,66 +450,120 @@ class Replayer:
                 for (ea, ca), (eb, cb) in zip(a, b):
                     dev = float(np.max(np.abs(ea - eb)))
                     gap = float(np.min(np.diff(np.sort(ea)))) if len(ea) > 1 else 1.0
-                    if same_terms and gap > 1e-3:
+                    if same_terms and gap > 1e-2:
                         dev = max(dev, float(np.max(np.abs(ca - cb))))
                     self.maxdev = max(self.maxdev, dev)
                     self.numeric += 1
                     if dev > 1e-8:
                         self.rep.violation("evaluate_k:reloaded_system", dict(info, step=op, deviation=dev, kpoints=KPTS))
                         ok = False
-        shutil.rmtree(d, ignore_errors=True)
         return ok
 
 
-def replay_files(rep, s, wd, n):
-    """one state of MC_SysFiles: real writers vs token tables, real readers on rendered token tables"""
+def replay_files(rep, obs, s, wd, n):
+    """one state of MC_SysFiles: real readers on rendered token tables (Wannier90 layout), both conventions and the default
+    file name on the real code; the layout of the files the real writers produce is information"""
     par = s["par"]
     sysrec = spec_sys(s["sys"])
     real = build_system(sysrec, GEN_NAMES[par[5]])
     d = os.path.join(wd, f"f{n}")
     os.makedirs(d, exist_ok=True)
+    nw, nR = sysrec["nw"], len(sysrec["R"])
     info = dict(params=dict(nw=par[0], shape=par[1], pat=par[2], AA=par[3], SS=par[4], grp=par[5]), ndegen_pattern=s["ndp"])
     tb, hr, wcc = L(s["tb"]), L(s["hr"]), L(s["wcc"])
-    if s["ndp"] == 0:
-        _, ex = real_call(real.to_tb_file, tb_file=os.path.join(d, "w_tb.dat"))
-        if ex:
-            rep.violation("to_tb_file:exception:" + ex.split(":")[0], dict(info, exception=ex))
-        elif tokenize(os.path.join(d, "w_tb.dat")) != tb:
-            rep.violation("to_tb_file:file_tokens", dict(info, expected_first_lines=tb[:12], got_first_lines=tokenize(os.path.join(d, "w_tb.dat"))[:12]))
-        _, ex = real_call(real.to_hr_file, seedname=os.path.join(d, "w"))
-        if ex:
-            rep.violation("to_hr_file:exception:" + ex.split(":")[0], dict(info, exception=ex))
-        else:
-            if tokenize(os.path.join(d, "w_hr.dat")) != hr:
-                rep.violation("to_hr_file:file_tokens", dict(info, expected_first_lines=hr[:12], got_first_lines=tokenize(os.path.join(d, "w_hr.dat"))[:12]))
-            if tokenize(os.path.join(d, "w_wannier_centre_WT_format.dat"), header=False) != wcc:
-                rep.violation("write_WCC_WT_format:file_tokens", dict(info, expected=wcc, got=tokenize(os.path.join(d, "w_wannier_centre_WT_format.dat"), header=False)))
-    # the specification's files through the real readers
-    render_tb(tb, os.path.join(d, "r_tb.dat"))
-    render_hr(hr, os.path.join(d, "r_hr.dat"))
-    render_wcc(wcc, os.path.join(d, "r_wannier_centre_WT_format.dat"))
-    cases = [("ReadTb", s["rtb"], lambda: read_tb(os.path.join(d, "r_tb.dat"), False, True, sysrec["cen"]), dict(needAA=False, given=True)),
-             ("ReadHr", s["rhr"], lambda: read_hr(os.path.join(d, "r"), sysrec["lat"], False, sysrec["cen"]), dict(needAA=False, given=False))]
-    if "AA" in sysrec["mats"]:
-        cases.append(("ReadTb", s["rtbAA"], lambda: read_tb(os.path.join(d, "r_tb.dat"), True, False, sysrec["cen"]), dict(needAA=True, given=False)))
-    for op, expr, call, e in cases:
-        got, ex = call()
-        if expr["err"] != "":
-            raise MachineryError(f"specification reader failed on its own file: {expr['err']} {info}")
+
+    def note(k):
+        obs[k] = obs.get(k, 0) + 1
+
+    def compare(key, got, ex, names, extra):
+        """got: system returned by a real reader; the statement: it is the system of the state"""
         if ex is not None:
-            rep.violation(site_key(op, "exception:" + ex.split(":")[0], e, sysrec["nw"]),
-                          dict(info, step=op + " of a file rendered from the specification's token table", num_wann=sysrec["nw"], exception=ex))
-            continue
+            rep.violation(key + ":exception" if not key.startswith("read_WCC") else key, dict(info, exception=ex, **extra))
+            return
         try:
             gp = project(got)
         except ValueError as ve:
-            rep.violation(site_key(op, "projection"), dict(info, step=op, problem=str(ve)))
-            continue
-        exp = spec_sys(expr["sys"])
-        bad = diff_sys(exp, gp)
+            rep.violation(key + ":projection", dict(info, problem=str(ve), **extra))
+            return
+        bad, inf = diff_sys(sysrec, gp, names=names, carried=())
+        for x in inf:
+            note(key + ":" + x.split(":")[0])
         if bad:
-            rep.violation(site_key(op, "projection"), dict(info, step=op + " (rendered file)", differing_fields=bad))
-    shutil.rmtree(d, ignore_errors=True)
+            rep.violation(key + ":projection", dict(info, differing_fields=bad, **extra))
+
+    hr_wcc = None
+    try:
+        if s["ndp"] == 0:
+            # ---- files written by the real code: layout = information, content = round trip through the real readers
+            _, ex = real_call(real.to_tb_file, tb_file=os.path.join(d, "w_tb.dat"))
+            if ex:
+                rep.violation("to_tb_file:exception", dict(info, exception=ex))
+            else:
+                t, prob = try_tokenize(os.path.join(d, "w_tb.dat"))
+                note("to_tb_file:tokens_as_modelled" if t == tb else "to_tb_file:tokens_differ_from_model")
+                got, ex = read_tb(os.path.join(d, "w_tb.dat"), "AA" in sysrec["mats"], True, sysrec["cen"])
+                compare("from_tb_file", got, ex, ["Ham"] + (["AA"] if "AA" in sysrec["mats"] else []), dict(step="real file, real reader"))
+            _, ex = real_call(real.to_hr_file, seedname=os.path.join(d, "w"))
+            if ex:
+                rep.violation("to_hr_file:exception", dict(info, exception=ex))
+            else:
+                t, prob = try_tokenize(os.path.join(d, "w_hr.dat"))
+                note("to_hr_file:tokens_as_modelled" if t == hr else "to_hr_file:tokens_differ_from_model")
+                t, prob = try_tokenize(os.path.join(d, "w_wannier_centre_WT_format.dat"), header=False)
+                note("write_WCC_WT_format:tokens_as_modelled" if t == wcc else "write_WCC_WT_format:tokens_differ_from_model")
+                hr_wcc = os.path.join(d, "w_wannier_centre_WT_format.dat")
+                got, ex = read_hr(os.path.join(d, "w"), sysrec["lat"], False, sysrec["cen"])
+                if ex is not None and nw % 2 == 1:
+                    rep.violation("read_WCC_WT_format:odd_num_wann", dict(info, exception=ex, num_wann=nw))
+                else:
+                    compare("from_hr_file", got, ex, ["Ham"], dict(step="real files, real reader"))
+            if "AA" in sysrec["mats"]:
+                # ---- convention I on both sides (use_convention_II=False / convention_II_to_I=False, centres passed)
+                _, ex = real_call(real.to_tb_file, tb_file=os.path.join(d, "c1_tb.dat"), use_convention_II=False)
+                if ex:
+                    rep.violation("to_tb_file:exception", dict(info, exception=ex, option="use_convention_II=False"))
+                else:
+                    t, prob = try_tokenize(os.path.join(d, "c1_tb.dat"))
+                    note("to_tb_file(convention I):tokens_as_modelled" if t == L(s["tbI"]) else "to_tb_file(convention I):tokens_differ_from_model")
+                    got, ex = read_tb(os.path.join(d, "c1_tb.dat"), True, True, sysrec["cen"], conv2=False)
+                    if s["rtbI"]["err"] != "":
+                        raise MachineryError(f"specification reader failed on its own convention-I file {info}")
+                    compare("from_tb_file:convention_I", got, ex, ["Ham", "AA"], dict(step="use_convention_II=False, convention_II_to_I=False"))
+            # ---- default file name: to_tb_file(seedname=..) writes <seedname>_tb.dat, from_tb_file(seedname=..) reads it
+            _, ex = real_call(real.to_tb_file, seedname=os.path.join(d, "sd"))
+            if ex:
+                rep.violation("to_tb_file:exception", dict(info, exception=ex, option="seedname instead of tb_file"))
+            elif not os.path.exists(os.path.join(d, "sd_tb.dat")):
+                note("to_tb_file(seedname):other_file_name")
+            else:
+                got, ex = read_tb(os.path.join(d, "sd"), False, True, sysrec["cen"], by_seedname=True)
+                compare("from_tb_file:default_file_name", got, ex, ["Ham"], dict(step="seedname instead of tb_file"))
+        # ---- the specification's files (Wannier90 layout) through the real readers
+        render_tb(tb, os.path.join(d, "r_tb.dat"), nw, nR)
+        render_hr(hr, os.path.join(d, "r_hr.dat"), nR)
+        tag = "rendered_w90_file" if s["ndp"] == 0 else "foreign_ndegen"
+        cases = [("from_tb_file:" + tag, s["rtb"], lambda: read_tb(os.path.join(d, "r_tb.dat"), False, True, sysrec["cen"]), ["Ham"])]
+        if "AA" in sysrec["mats"]:
+            cases.append(("from_tb_file:" + tag, s["rtbAA"], lambda: read_tb(os.path.join(d, "r_tb.dat"), True, False, sysrec["cen"]), ["Ham", "AA"]))
+        # the centre file is the code's own pairing of writer and reader (no external layout): the real writer's file is used
+        if hr_wcc is None:
+            _, ex = real_call(real.to_hr_file, seedname=os.path.join(d, "w"))
+            hr_wcc = os.path.join(d, "w_wannier_centre_WT_format.dat") if ex is None else None
+        if hr_wcc is not None and os.path.exists(hr_wcc):
+            shutil.copy(hr_wcc, os.path.join(d, "r_wannier_centre_WT_format.dat"))
+            cases.append(("from_hr_file:" + tag, s["rhr"], lambda: read_hr(os.path.join(d, "r"), sysrec["lat"], False, sysrec["cen"]), ["Ham"]))
+        else:
+            cases.append(("from_hr_file:" + tag, s["rhr"], lambda: read_hr(os.path.join(d, "r"), sysrec["lat"], True, sysrec["cen"]), ["Ham"]))
+        for key, expr, call, names in cases:
+            if expr["err"] != "":
+                raise MachineryError(f"specification reader failed on its own file: {expr['err']} {info}")
+            got, ex = call()
+            if ex is not None and key.startswith("from_hr_file") and nw % 2 == 1:
+                rep.violation("read_WCC_WT_format:odd_num_wann", dict(info, exception=ex, num_wann=nw))
+                continue
+            compare(key, got, ex, names, dict(step="file rendered from the specification's token table"))
+    finally:
+        shutil.rmtree(d, ignore_errors=True)
 
 
 # --------------------------------------------------------------------------- random recorded round trips
@@ -405,7 +571,7 @@ def random_sparse_system(rng):
     import wannierberri as wb
     nw = rng.choice([1, 1, 2, 2, 3, 3, 4, 5])
     herm = rng.random() < 0.7
-    nR = rng.choice([0, 1, 2, 3, 8, 16]) if nw <= 2 else rng.choice([0, 1, 2, 3])
+    nR = rng.choice([0, 1, 2, 3, 7, 8, 16]) if nw <= 2 else rng.choice([0, 1, 2, 3])
     Rs = set()
     while len(Rs) < nR:
         R = tuple(rng.randint(-2, 2) for _ in range(3))
@@ -450,10 +616,14 @@ def random_sparse_system(rng):
             s.set_pointgroup(["Inversion"])
         if rng.random() < 0.3:
             s.periodic = np.array([True, True, False])
+        if rng.random() < 0.2:
+            s.is_phonon = True
     return s, herm
 
 
-def record_roundtrips(rep, rng, n, wd):
+def record_roundtrips(rep, vio, rng, n, wd):
+    """-> (records, meta): one record per round trip the real code completed or refused at the reader; a writer that raises
+    on a valid system is a violation at once (there is nothing to record)"""
     from wannierberri.system.system_R import System_R
     recs, meta = [], []
     maxdev = 0.0
@@ -464,41 +634,306 @@ def record_roundtrips(rep, rng, n, wd):
         os.makedirs(d, exist_ok=True)
         fmt = ("tb", "hr", "npz")[it % 3]
         rec = dict(fmt=fmt, sys=ps)
-        if fmt == "tb":
-            needAA, given = rng.random() < 0.5, rng.random() < 0.5
-            if "AA" not in ps["mats"] and rng.random() < 0.8:
-                needAA, given = False, True
-            with quiet():
-                s.to_tb_file(tb_file=os.path.join(d, "x_tb.dat"))
-            rec.update(tb=tokenize(os.path.join(d, "x_tb.dat")), needAA=needAA, given=given)
-            got, ex = read_tb(os.path.join(d, "x_tb.dat"), needAA, given, ps["cen"])
-        elif fmt == "hr":
-            given = rng.random() < 0.3
-            with quiet():
-                s.to_hr_file(seedname=os.path.join(d, "x"))
-            rec.update(hr=tokenize(os.path.join(d, "x_hr.dat")), wcc=tokenize(os.path.join(d, "x_wannier_centre_WT_format.dat"), header=False), given=given)
-            got, ex = read_hr(os.path.join(d, "x"), ps["lat"], given, ps["cen"])
-        else:
-            with quiet():
-                s.to_npz(os.path.join(d, "dir"))
-            names = sorted(os.path.splitext(f)[0] for f in os.listdir(os.path.join(d, "dir")))
-            rec.update(props=[x for x in names if not x.startswith("_XX_R_")], matfiles=[x[6:] for x in names if x.startswith("_XX_R_")])
-            got, ex = real_call(System_R.from_npz, os.path.join(d, "dir"))
-        if ex is not None:
-            rec["out"] = dict(err=ex.split(":")[0])
-        else:
-            try:
-                rec["out"] = dict(err="", sys=project(got))
-            except ValueError as ve:
-                rec["out"] = dict(err="projection: " + str(ve))
-            if herm and rec["out"]["err"] == "":
-                for (ea, ca), (eb, cb) in zip(bands(s), bands(got)):
-                    maxdev = max(maxdev, float(np.max(np.abs(ea - eb))))
-        recs.append(rec)
-        meta.append(dict(fmt=fmt, nw=ps["nw"], nR=len(ps["R"]), given=rec.get("given"), needAA=rec.get("needAA"), exception=ex))
-        rep.case(("rec", fmt, ps["nw"], len(ps["R"]), it))
-        shutil.rmtree(d, ignore_errors=True)
+        m = dict(fmt=fmt, nw=ps["nw"], nR=len(ps["R"]))
+        try:
+            if fmt == "tb":
+                needAA, given = rng.random() < 0.5, rng.random() < 0.5
+                conv2 = rng.random() < 0.75
+                if "AA" not in ps["mats"] and rng.random() < 0.8:
+                    needAA, given = False, True
+                if not conv2:
+                    given = True            # a convention-I file does not carry the centres at all
+                _, wex = real_call(s.to_tb_file, tb_file=os.path.join(d, "x_tb.dat"), **({} if conv2 else dict(use_convention_II=False)))
+                if wex:
+                    vio.violation("to_tb_file:exception", dict(meta=m, exception=wex, conv2=conv2))
+                    continue
+                toks, prob = try_tokenize(os.path.join(d, "x_tb.dat"))
+                rec.update(tb=toks if toks is not None else [], needAA=needAA, given=given, conv2=conv2)
+                got, ex = read_tb(os.path.join(d, "x_tb.dat"), needAA, given, ps["cen"], conv2=conv2)
+                m.update(given=given, needAA=needAA, conv2=conv2, layout_problem=prob)
+            elif fmt == "hr":
+                given = rng.random() < 0.3
+                _, wex = real_call(s.to_hr_file, seedname=os.path.join(d, "x"))
+                if wex:
+                    vio.violation("to_hr_file:exception", dict(meta=m, exception=wex))
+                    continue
+                toks, prob = try_tokenize(os.path.join(d, "x_hr.dat"))
+                wtoks, prob2 = try_tokenize(os.path.join(d, "x_wannier_centre_WT_format.dat"), header=False)
+                rec.update(hr=toks if toks is not None else [], wcc=wtoks if wtoks is not None else [], given=given)
+                got, ex = read_hr(os.path.join(d, "x"), ps["lat"], given, ps["cen"])
+                m.update(given=given, layout_problem=prob or prob2)
+            else:
+                _, wex = real_call(s.to_npz, os.path.join(d, "dir"))
+                if wex:
+                    vio.violation("to_npz:exception", dict(meta=m, exception=wex))
+                    continue
+                names = sorted(os.path.splitext(f)[0] for f in os.listdir(os.path.join(d, "dir")) if f.endswith(".npz"))
+                rec.update(props=[x for x in names if not x.startswith("_XX_R_")], matfiles=[x[6:] for x in names if x.startswith("_XX_R_")])
+                got, ex = real_call(System_R.from_npz, os.path.join(d, "dir"))
+            if ex is not None:
+                rec["out"] = dict(err=ex.split(":")[0])
+            else:
+                try:
+                    pg_ = project(got)
+                    if pg_["pg"] is None or ps["pg"] is None:
+                        pg_["pg"] = ps["pg"] = []
+                    rec["out"] = dict(err="", sys=pg_)
+                except ValueError as ve:
+                    rec["out"] = dict(err="projection: " + str(ve))
+                if herm and rec["out"]["err"] == "" and not ps["phon"]:
+                    for (ea, ca), (eb, cb) in zip(bands(s), bands(got)):
+                        maxdev = max(maxdev, float(np.max(np.abs(ea - eb))))
+            m["exception"] = ex
+            recs.append(rec)
+            meta.append(m)
+            rep.case(("rec", fmt, ps["nw"], len(ps["R"]), it))
+        finally:
+            shutil.rmtree(d, ignore_errors=True)
     return recs, meta, maxdev
+
+
+# --------------------------------------------------------------------------- printed precision (numeric, deciding)
+TOL_TEXT = 1e-7         # relative, per real component: %15.8e keeps 9 significant digits (half-ulp 5e-9)
+TOL_WCC = 1e-7          # absolute: the centre file is written with repr (exact) but |x| <= 1e-7 is written as 0.0
+
+
+def _mag(rng):
+    return rng.choice([-1, 1]) * (1 + rng.random()) * 10.0 ** rng.uniform(-9, 3)
+
+
+def random_float_system(rng, hexagonal):
+    import wannierberri as wb
+    nw = rng.choice([1, 2, 3, 4, 5])
+    Rs = set()
+    for _ in range(rng.choice([0, 1, 3, 8])):
+        R = tuple(rng.randint(-2, 2) for _ in range(3))
+        if R != (0, 0, 0):
+            Rs.add(R)
+    if hexagonal:
+        a, c = 1 + rng.random(), 1 + 2 * rng.random()
+        lat = np.array([[a, 0, 0], [-a / 2, a * np.sqrt(3) / 2, 0], [0, 0, c]])
+    else:
+        while True:
+            lat = np.array([[rng.uniform(-1.5, 1.5) for _ in range(3)] for _ in range(3)]) + np.eye(3) * 2.5
+            if abs(np.linalg.det(lat)) > 1:
+                break
+    cen = np.array([[rng.uniform(-3, 3) for _ in range(3)] for _ in range(nw)])
+    if rng.random() < 0.3:
+        cen[0, 0] = 3e-8                       # below the zeroing threshold of the centre file
+    ham = {R: {(i, j): _mag(rng) + 1j * _mag(rng) for i in range(nw) for j in range(nw)} for R in Rs | {(0, 0, 0)}}
+    mats = {"Ham": ham}
+    if rng.random() < 0.6:
+        aa = {R: {(i, j): np.array([_mag(rng) + 1j * _mag(rng) for _ in range(3)]) for i in range(nw) for j in range(nw)}
+              for R in Rs | {(0, 0, 0)}}
+        for i in range(nw):
+            aa[(0, 0, 0)][(i, i)] = np.zeros(3, dtype=complex)
+        mats["AA"] = aa
+    with quiet():
+        s = wb.system.System_R.from_sparse(real_lattice=lat, wannier_centers_cart=cen, matrices=mats)
+        if hexagonal:
+            s.set_pointgroup(rng.choice([["C3z", "Inversion"], ["C6z"], ["C3z", "TimeReversal"]]))
+            s.is_phonon = rng.random() < 0.5
+    return s
+
+
+def _blocks(s, k):
+    a = np.asarray(s.get_R_mat(k))
+    return {tuple(int(x) for x in r): a[i] for i, r in enumerate(s.rvec.iRvec)}
+
+
+def _reldev(a, b, floor=None):
+    """max over real components of |a-b| / (|a| (+ floor))"""
+    a, b = np.asarray(a), np.asarray(b)
+    if a.shape != b.shape:
+        return float("inf")
+    dev = 0.0
+    for x, y in ((a.real, b.real), (a.imag, b.imag)):
+        den = np.abs(x) + (0.0 if floor is None else floor)
+        num = np.abs(x - y)
+        with np.errstate(divide="ignore", invalid="ignore"):
+            r = np.where(num == 0, 0.0, num / np.where(den == 0, np.nan, den))
+        r = np.where(np.isnan(r), np.inf, r)
+        dev = max(dev, float(np.max(r)) if r.size else 0.0)
+    return dev
+
+
+def precision_roundtrips(vio, rng, n, wd):
+    """non-dyadic numbers through the three formats; -> dict of observed maxima"""
+    from wannierberri.system.system_R import System_R
+    obs = dict(cases=0, tb_rel=0.0, hr_rel=0.0, wcc_abs=0.0, tb_centres_rel=0.0, hexagonal=0, phonon=0)
+
+    def same_R(s, t):
+        return sorted(map(tuple, np.asarray(s.rvec.iRvec).tolist())) == sorted(map(tuple, np.asarray(t.rvec.iRvec).tolist()))
+
+    for it in range(n):
+        fmt = ("tb", "hr", "npz")[it % 3]
+        hexagonal = fmt == "npz" and (it // 3) % 2 == 0
+        s = random_float_system(rng, hexagonal)
+        nw = int(s.num_wann)
+        m = dict(fmt=fmt, nw=nw, nR=int(s.rvec.nRvec), hexagonal=hexagonal, case=it, seed=seed())
+        d = os.path.join(wd, f"p{it}")
+        os.makedirs(d, exist_ok=True)
+        obs["cases"] += 1
+        try:
+            cen = np.array(s.wannier_centers_cart, dtype=float)
+            if fmt == "tb":
+                has_aa = s.has_R_mat("AA")
+                given = (not has_aa) or rng.random() < 0.5
+                _, ex = real_call(s.to_tb_file, tb_file=os.path.join(d, "x_tb.dat"))
+                if ex:
+                    vio.violation("to_tb_file:exception", dict(meta=m, exception=ex))
+                    continue
+                kw = dict(tb_file=os.path.join(d, "x_tb.dat"), silent=True)
+                if has_aa:
+                    kw["berry"] = True
+                if given:
+                    kw["wannier_centers_cart"] = cen
+                t, ex = real_call(System_R.from_tb_file, **kw)
+                if ex:
+                    vio.violation("from_tb_file:exception", dict(meta=m, exception=ex, numbers="non-dyadic"))
+                    continue
+                bad = []
+                if not np.array_equal(np.asarray(t.real_lattice), np.asarray(s.real_lattice)):
+                    bad.append(("lattice", float(np.max(np.abs(np.asarray(t.real_lattice) - np.asarray(s.real_lattice))))))
+                if not same_R(s, t):
+                    bad.append(("R", None))
+                else:
+                    hs, ht = _blocks(s, "Ham"), _blocks(t, "Ham")
+                    dev = max(_reldev(hs[r], ht[r]) for r in hs)
+                    obs["tb_rel"] = max(obs["tb_rel"], dev)
+                    if dev > TOL_TEXT:
+                        bad.append(("Ham", dev))
+                    cdev = 0.0 if given else _reldev(cen, np.asarray(t.wannier_centers_cart))
+                    if given and not np.array_equal(cen, np.asarray(t.wannier_centers_cart)):
+                        cdev = float("inf")
+                    obs["tb_centres_rel"] = max(obs["tb_centres_rel"], cdev)
+                    if cdev > TOL_TEXT:
+                        bad.append(("centres", cdev))
+                    if has_aa:
+                        as_, at = _blocks(s, "AA"), _blocks(t, "AA")
+                        dev = 0.0
+                        for r in as_:
+                            if r == (0, 0, 0):
+                                # the diagonal is printed as AA + centre: the absolute error scales with the centre
+                                idx = np.arange(nw)
+                                off = ~np.eye(nw, dtype=bool)
+                                if nw > 1:
+                                    dev = max(dev, _reldev(as_[r][off], at[r][off]))
+                                dg = as_[r][idx, idx, :] - at[r][idx, idx, :]
+                                num = np.maximum(np.abs(dg.real), np.abs(dg.imag))
+                                den = np.abs(cen) + np.abs(as_[r][idx, idx, :])
+                                with np.errstate(divide="ignore", invalid="ignore"):
+                                    q = np.where(num == 0, 0.0, num / np.where(den == 0, np.nan, den))
+                                dev = max(dev, float(np.max(np.where(np.isnan(q), np.inf, q))))
+                            else:
+                                dev = max(dev, _reldev(as_[r], at[r]))
+                        obs["tb_rel"] = max(obs["tb_rel"], dev)
+                        if dev > TOL_TEXT:
+                            bad.append(("AA", dev))
+                if bad:
+                    vio.violation("to_tb_file:precision", dict(meta=m, centres_passed=given, beyond_tolerance=bad, tolerance=TOL_TEXT,
+                                                                what="relative deviation per real component after to_tb_file / from_tb_file"))
+            elif fmt == "hr":
+                given = rng.random() < 0.3
+                _, ex = real_call(s.to_hr_file, seedname=os.path.join(d, "x"))
+                if ex:
+                    vio.violation("to_hr_file:exception", dict(meta=m, exception=ex))
+                    continue
+                kw = dict(seedname=os.path.join(d, "x"), real_lattice=np.array(s.real_lattice), silent=True)
+                if given:
+                    kw["wannier_centers_cart"] = cen
+                t, ex = real_call(System_R.from_hr_file, **kw)
+                if ex:
+                    key = "read_WCC_WT_format:odd_num_wann" if (nw % 2 == 1 and not given) else "from_hr_file:exception"
+                    vio.violation(key, dict(meta=m, exception=ex, numbers="non-dyadic"))
+                    continue
+                bad = []
+                if not same_R(s, t):
+                    bad.append(("R", None))
+                else:
+                    hs, ht = _blocks(s, "Ham"), _blocks(t, "Ham")
+                    dev = max(_reldev(hs[r], ht[r]) for r in hs)
+                    obs["hr_rel"] = max(obs["hr_rel"], dev)
+                    if dev > TOL_TEXT:
+                        bad.append(("Ham", dev))
+                ct = np.asarray(t.wannier_centers_cart)
+                cdev = float(np.max(np.abs(ct - cen))) if ct.shape == cen.shape else float("inf")
+                obs["wcc_abs"] = max(obs["wcc_abs"], cdev)
+                if cdev > TOL_WCC:
+                    bad.append(("centres", cdev))
+                if bad:
+                    key = "write_WCC_WT_format:precision" if [b for b in bad if b[0] == "centres"] and len(bad) == 1 else "to_hr_file:precision"
+                    vio.violation(key, dict(meta=m, centres_passed=given, beyond_tolerance=bad, tolerance=dict(Ham=TOL_TEXT, centres=TOL_WCC)))
+            else:
+                obs["hexagonal"] += 1 if hexagonal else 0
+                obs["phonon"] += 1 if bool(np.asarray(s.is_phonon)) else 0
+                _, ex = real_call(s.to_npz, os.path.join(d, "dir"))
+                if ex:
+                    vio.violation("to_npz:exception", dict(meta=m, exception=ex))
+                    continue
+                t, ex = real_call(System_R.from_npz, os.path.join(d, "dir"))
+                if ex:
+                    vio.violation("from_npz:exception", dict(meta=m, exception=ex, numbers="non-dyadic"))
+                    continue
+                bad = []
+                for name in ("real_lattice", "wannier_centers_cart", "periodic"):
+                    if not np.array_equal(np.asarray(getattr(s, name)), np.asarray(getattr(t, name))):
+                        bad.append(name)
+                if bool(np.asarray(s.is_phonon)) != bool(np.asarray(t.is_phonon)):
+                    bad.append("is_phonon")
+                if not same_R(s, t) or set(matrix_names(s)) != set(matrix_names(t)):
+                    bad.append("R/matrix names")
+                else:
+                    for k in matrix_names(s):
+                        a, b = _blocks(s, k), _blocks(t, k)
+                        if any(not np.array_equal(a[r], b[r]) for r in a):
+                            bad.append("mats." + k)
+                ea, eb = pg_elements(s), pg_elements(t)
+                if ea is not None and eb is not None:
+                    # the same set of group elements (float matrices: a generated group is rebuilt from its elements)
+                    if len(ea) != len(eb) or any(min((float(np.max(np.abs(M - N))) if tr == tr2 else 9.0) for N, tr2 in eb) > 1e-9 for M, tr in ea):
+                        bad.append("pointgroup")
+                if bad:
+                    vio.violation("to_npz:precision", dict(meta=m, differing=bad, what="the npz directory is binary: every value has to come back bit by bit"))
+        finally:
+            shutil.rmtree(d, ignore_errors=True)
+    return obs
+
+
+def soc_observation(rng, wd):
+    """SystemSOC.to_npz/from_npz (system_soc.py) on a hand-made object: information only (the object is assembled by the harness
+    through attributes of the class, not by the package)"""
+    out = {}
+    d = os.path.join(wd, "soc")
+    try:
+        from wannierberri.system.system_soc import SystemSOC
+        s = random_float_system(rng, False)
+        nw, nR = int(s.num_wann), int(s.rvec.nRvec)
+        with quiet():
+            soc = SystemSOC(system_up=s, cell=dict(positions=[[0, 0, 0]], typat=[1], magmoms_on_axis=[0.0]))
+            soc.rvec = s.rvec
+            dv = np.array([[[[_mag(rng) + 1j * _mag(rng) for _ in range(3)] for _ in range(nw)] for _ in range(nw)] for _ in range(nR)])
+            soc.set_R_mat("dV_soc_wann_0_0", dv)
+        for label, with_pg in (("pointgroup_as_constructed", False), ("pointgroup_of_the_scalar_system", True)):
+            if with_pg:
+                soc.pointgroup = s.pointgroup
+            shutil.rmtree(d, ignore_errors=True)
+            _, ex = real_call(soc.to_npz, d)
+            if ex:
+                out[label] = "to_npz raises " + ex
+                continue
+            t, ex = real_call(SystemSOC.from_npz, d)
+            if ex:
+                out[label] = "from_npz raises " + ex
+                continue
+            same = np.array_equal(np.asarray(t.get_R_mat("dV_soc_wann_0_0")), dv) and int(t.num_wann) == 2 * nw and \
+                np.array_equal(np.asarray(t.system_up.get_R_mat("Ham")), np.asarray(s.get_R_mat("Ham")))
+            out[label] = "round trip ok" if same else "round trip differs"
+    except Exception as ex:                   # assembled through internals: anything here is the harness's own doing
+        skipped_private("SystemSOC (hand-made)", f"{type(ex).__name__}: {ex}")
+    finally:
+        shutil.rmtree(d, ignore_errors=True)
+    return out
 
 
 def replay_counterexample(st, wd):
@@ -510,9 +945,13 @@ def replay_counterexample(st, wd):
         stt = tlaparse.parse_state_body(last)
         col = _Collect()
         obs["behaviour"] = [e["op"] for e in stt["hist"][1:]]
-        obs["real_code_follows_model"] = bool(Replayer(col, wd).replay(stt, origin="tlc-counterexample"))
+        rp = Replayer(col, wd)
+        ok = bool(rp.replay(stt, origin="tlc-counterexample"))
+        obs["real_code_follows_this_model"] = ok and not rp.info
         if col.items:
             obs["differences"] = [k for k, _ in col.items][:3]
+        if rp.info:
+            obs["information"] = dict(rp.info)
     except Exception as ex:   # observation only
         obs["replay_problem"] = str(ex)[:200]
     return obs
@@ -525,6 +964,17 @@ def mc_cfg(nws, shapes, pats, maxlen, invs, ceil=True, aazero=True, spec="Spec",
     return (f"SPECIFICATION {spec}\nCONSTANTS\n  WccSplitCeil = {'TRUE' if ceil else 'FALSE'}\n  NWS = {tlc.tla_value(set(nws))}\n"
             f"  SHAPES = {tlc.tla_value(set(shapes))}\n  PATS = {tlc.tla_value(set(pats))}\n  AAZERO = {'TRUE' if aazero else 'FALSE'}\n"
             f"  MAXLEN = {maxlen}\n{extra}" + "".join(f"INVARIANT {i}\n" for i in invs) + "CHECK_DEADLOCK FALSE\n")
+
+
+def enum_states(module, cfg, name, timeout):
+    """ftable.enumerate_states without the coverage statistics (they double the CPU time of these models; non-vacuity is
+    counted on the dump instead)"""
+    st = tlc.run_tlc(module, cfg, name, workers=4, dump=True, coverage=False, timeout=timeout)
+    if st.get("timeout"):
+        raise MachineryError(f"TLC timed out on {name}")
+    if st.get("error") and not st.get("violation"):
+        raise MachineryError(f"TLC error on {name}: {st['error'][:600]}")
+    return st
 
 
 def drop_dump(st):
@@ -547,29 +997,96 @@ class Capped:
             self.rep.violation(key, detail)
 
 
+def beh_key(s):
+    h = s["hist"]
+    return (tuple(h[0]["par"]), tuple((e["op"], e["src"], e["needAA"], e["given"]) for e in h[1:]))
+
+
+def classes_of(s):
+    """classes a behaviour covers: (parity of num_wann, action, options of the read, R=0 first?)"""
+    h = s["hist"]
+    par = h[0]["par"]
+    r0first = par[1] != 2
+    out = set()
+    for e in h[1:]:
+        if e["op"] in ("LoadNpz", "ReadTb", "ReadHr"):
+            out.add((par[0] % 2, e["op"], bool(e["needAA"]), bool(e["given"]), r0first, e["err"] == ""))
+    return out
+
+
+def draw_leaves(leaves, budget, rng):
+    """deterministic, class-covering sample: the dump order of TLC is not deterministic, so sort by the full key first"""
+    leaves = sorted(leaves, key=lambda s: repr(beh_key(s)))
+    if len(leaves) <= budget:
+        return leaves, len(leaves)
+    order = list(range(len(leaves)))
+    rng.shuffle(order)
+    seen, first, rest = set(), [], []
+    for i in order:
+        c = classes_of(leaves[i]) - seen
+        if c:
+            seen |= c
+            first.append(i)
+        else:
+            rest.append(i)
+    pick = (first + rest)[:max(budget, len(first))]
+    return [leaves[i] for i in pick], len(leaves)
+
+
 def check(pid, tier):
     rep = Report(pid, tier, "model_checking")
+    try:
+        return _check(rep, pid, tier)
+    except Exception:
+        # never lose what has been found: write the violations out before the machinery problem is reported
+        if rep.violations:
+            try:
+                rep.part("aborted", note="the run stopped early; the violations collected so far are reported")
+                rep.finish()
+            except Exception:
+                pass
+        raise
+
+
+def _check(rep, pid, tier):
     vio = Capped(rep)
     thorough = tier == "thorough"
     rng = random.Random(seed() * 7919 + 18)
     import wannierberri  # noqa: F401  (import cost outside the loops)
-    wd = workdir("c18")
-    rep.rule("TLC enumerates every behaviour (<= MAXLEN persistence actions) of every system of the family; a case = one behaviour "
-             "replayed on real System_R objects and files (exact comparison of projections and tokens), one file-table state, or one "
-             "seeded random recorded round trip validated by TLC; distinct by behaviour / parameters")
-    rep.assume("all numbers are multiples of 1/8: exact in binary floating point and in the printed formats")
-    rep.assume("_tb.dat carries the centres only through AA(R=0) (zero diagonal in convention I) unless they are passed; the lattice is an argument of the _hr.dat reader")
+    tag = f"{pid.lower()}_{tier}_{os.getpid()}"
+    wd = workdir(tag)
+    tlc_names = []
+    timing = {}
+    t_last = [cpu()]
 
-    # ---------------- spec: state machine, intended semantics; every leaf behaviour is replayed
-    nws, shapes, pats, maxlen = ((1, 2, 3, 4), (1, 2, 3, 4, 5), (1, 2), 3) if thorough else ((1, 2, 3, 4), (1, 2, 3, 5), (1,), 3)
+    def lap(name):
+        now = cpu()
+        timing[name] = round(now - t_last[0], 1)
+        t_last[0] = now
+
+    def tname(n):
+        tlc_names.append(f"{tag}_{n}")
+        return tlc_names[-1]
+
+    rep.rule("TLC enumerates every behaviour (<= MAXLEN persistence actions) of every system of the family; a case = one behaviour "
+             "replayed on real System_R objects and files (quick: seeded sample that covers every class (parity of num_wann, action, "
+             "options, position of R=0); thorough: all), one file-table state, one seeded random recorded round trip validated by "
+             "TLC, or one seeded random non-dyadic round trip; distinct by behaviour / parameters")
+    rep.assume("exact part: all numbers are multiples of 1/8 (exact in binary floating point and in the printed formats); printed "
+               "precision is the business of the numeric part `precision`")
+    rep.assume("_tb.dat carries the centres only through AA(R=0) (zero diagonal in convention I) unless they are passed; the lattice is an argument of the _hr.dat reader")
+    rep.assume("two systems are the same when they have the same set of R-vectors and the same block for every R-vector")
+
+    # ---------------- spec: state machine, intended semantics; leaf behaviours are replayed
+    nws, shapes, pats, maxlen = ((1, 2, 3, 4), (1, 2, 3, 4, 5), (1, 2), 3) if thorough else ((1, 2, 3), (1, 2, 3, 5), (1,), 3)
     invs = ["TbRoundTrip", "HrRoundTrip", "NpzRoundTrip", "WellFormed"]
-    st = ftable.enumerate_states("MC_SysStore.tla", mc_cfg(nws, shapes, pats, maxlen, invs), "c18_store", timeout=2400)
+    st = enum_states("MC_SysStore.tla", mc_cfg(nws, shapes, pats, maxlen, invs), tname("store"), 2400)
     ftable.spec_violation(rep, st, "c18_store")
-    tlc.check_not_vacuous(st, ["DoLoadNpz", "DoReadTb", "DoReadHr"], "c18_store")
     rep.add_tlc("c18_store", st)
+    lap("tlc_store")
     rp = Replayer(vio, wd)
     nleaf = followed = 0
-    budget = 10 ** 9 if thorough else 400
+    budget = 10 ** 9 if thorough else 160
     leaves = []
     for s in ftable.dump_states(st):
         h = s["hist"]
@@ -578,112 +1095,164 @@ def check(pid, tier):
     drop_dump(st)
     if not leaves:
         raise MachineryError("no behaviour of full length in the dump")
-    if len(leaves) > budget:
-        # quick tier: a seeded sample of the behaviours (all of them in the thorough tier); classes are checked below
-        rng.shuffle(leaves)
-        leaves = leaves[:budget]
-    classes = {}
+    allcls = set().union(*[classes_of(s) for s in leaves])
+    leaves, nall = draw_leaves(leaves, budget, rng)
+    covered = set()
     for s in leaves:
         nleaf += 1
         h = s["hist"]
-        key = (tuple(h[0]["par"]), tuple((e["op"], e["src"], e["needAA"], e["given"]) for e in h[1:]))
-        rep.case(("beh",) + key)
+        rep.case(("beh",) + beh_key(s))
         if rp.replay(s):
             followed += 1
-        for e in h[1:]:
-            classes[(h[0]["par"][0] % 2, e["op"])] = classes.get((h[0]["par"][0] % 2, e["op"]), 0) + 1
+        covered |= classes_of(s)
         if nleaf <= 2:
             rep.sample(dict(params=list(h[0]["par"]), behaviour=[e["op"] for e in h[1:]], errors=[e["err"] for e in h[1:]]))
+    if covered != allcls:
+        raise MachineryError(f"replayed behaviours miss classes: {sorted(allcls - covered)[:5]}")
     for par in (0, 1):
         for op in ("LoadNpz", "ReadTb", "ReadHr"):
-            if not classes.get((par, op)):
-                raise MachineryError(f"no replayed behaviour with {op} for {'odd' if par else 'even'} num_wann")
-    rep.part("replay_store", behaviours=nleaf, followed_specification=followed, actions=rp.ops)
+            if not any(c[0] == par and c[1] == op and c[5] for c in covered):
+                raise MachineryError(f"no replayed behaviour with a successful {op} for {'odd' if par else 'even'} num_wann")
+    rep.part("replay_store", behaviours=nleaf, of_leaf_behaviours=nall, classes=len(covered), did_what_the_statement_says=followed, actions=rp.ops)
+    lap("replay_store")
 
     # ---------------- thorough: longer behaviours (MAXLEN 4) of a smaller family, seeded sample replayed
     if thorough:
-        std = ftable.enumerate_states("MC_SysStore.tla", mc_cfg((1, 2, 3), (1, 3), (1,), 4, invs), "c18_store_deep", timeout=2400)
+        std = enum_states("MC_SysStore.tla", mc_cfg((1, 2, 3), (1, 3), (1,), 4, invs), tname("store_deep"), 2400)
         ftable.spec_violation(rep, std, "c18_store_deep")
         rep.add_tlc("c18_store_deep", std)
         deep = [s for s in ftable.dump_states(std)
                 if len(s["hist"]) - 1 == 4 and s["hist"][-1]["op"] in ("LoadNpz", "ReadTb", "ReadHr")]
         drop_dump(std)
-        rng.shuffle(deep)
+        deep, ndeep = draw_leaves(deep, 2500, rng)
         nd_ = fd_ = 0
-        for s in deep[:2500]:
-            h = s["hist"]
-            rep.case(("beh",) + (tuple(h[0]["par"]), tuple((e["op"], e["src"], e["needAA"], e["given"]) for e in h[1:])))
+        for s in deep:
+            rep.case(("beh",) + beh_key(s))
             nd_ += 1
             fd_ += 1 if rp.replay(s) else 0
-        rep.part("replay_store_deep", behaviours=nd_, followed_specification=fd_, of=len(deep))
+        rep.part("replay_store_deep", behaviours=nd_, did_what_the_statement_says=fd_, of=ndeep)
+        lap("store_deep")
 
     # ---------------- spec: file tables for every system and Ndegen pattern
-    fshapes = (1, 2, 3, 4, 5)
-    fcfg = mc_cfg(nws, fshapes, pats if thorough else (1,), 0, ["TbFileInverse", "TbFileInverseAA", "HrFileInverse", "NdegenLayout"],
-                  spec="FSpec", extra="  NDPATS = {0, 1, 2}\n")
-    stf = ftable.enumerate_states("MC_SysFiles.tla", fcfg, "c18_files", timeout=1200)
+    fshapes = (1, 2, 3, 4, 5, 6, 7)
+    fcfg = mc_cfg((1, 2, 3, 4) if thorough else (1, 2, 3), fshapes, pats if thorough else (1,), 0,
+                  ["TbFileInverse", "TbFileInverseAA", "TbFileInverseConvI", "HrFileInverse", "NdegenLayout"],
+                  spec="FSpec", extra="  NDPATS = {0, 1, 2}\n" if thorough else "  NDPATS = {0, 2}\n")
+    stf = enum_states("MC_SysFiles.tla", fcfg, tname("files"), 1200)
     ftable.spec_violation(rep, stf, "c18_files")
     rep.add_tlc("c18_files", stf)
+    lap("tlc_files")
     nf = 0
     ndseen = set()
-    for s in ftable.dump_states(stf):
+    fobs = {}
+    fstates = sorted(ftable.dump_states(stf), key=lambda s: (tuple(s["par"]), s["ndp"]))
+    for s in fstates:
         nf += 1
         rep.case(("file", tuple(s["par"]), s["ndp"]))
-        ndseen.add((s["ndp"], len(s["sys"]["R"]) > 15))
-        replay_files(vio, s, wd, nf)
+        ndseen.add((s["ndp"] != 0, len(s["sys"]["R"])))
+        replay_files(vio, fobs, s, wd, nf)
     drop_dump(stf)
-    if nf != stf["distinct"] or (1, True) not in ndseen or (0, True) not in ndseen:
-        raise MachineryError(f"file-table dump incomplete: {nf} of {stf['distinct']}, classes {sorted(ndseen)}")
+    need = {(True, 15), (True, 16), (True, 17), (False, 15), (False, 16), (False, 17)}
+    if nf != stf["distinct"] or not need <= ndseen:
+        raise MachineryError(f"file-table dump incomplete: {nf} of {stf['distinct']}, classes missing {sorted(need - ndseen)}")
     rep.part("replay_files", states=nf)
+    lap("replay_files")
 
     # ---------------- sensitivity: models of plausible wrong variants must violate the property in TLC
-    s1 = tlc.run_tlc("MC_SysStore.tla", mc_cfg((1, 2, 3), (1,), (1,), 2, ["HrRoundTrip"], ceil=False), "c18_wcc_floor", workers=4, timeout=900)
+    s1 = tlc.run_tlc("MC_SysStore.tla", mc_cfg((1, 2, 3), (1,), (1,), 2, ["HrRoundTrip"], ceil=False), tname("wcc_floor"), workers=4, timeout=900)
     if not s1.get("violation"):
         raise MachineryError("sensitivity self-test failed: the reader that splits the WCC file at n div 2 must violate HrRoundTrip")
     rep.part("c18_wcc_floor", sensitivity_violation=s1["violation"][1], **replay_counterexample(s1, wd),
-             note="model of read_WCC_WT_format splitting at n//2 (system_hr.py as read); real_code_follows_model = the real code "
-                  "fails exactly where this model fails")
-    s2 = tlc.run_tlc("MC_SysStore.tla", mc_cfg((2,), (1,), (1,), 2, ["TbRoundTripNoPrecondition"], aazero=False), "c18_aadiag", workers=4, timeout=900)
-    if not s2.get("violation"):
-        raise MachineryError("sensitivity self-test failed: without the AADiagZero precondition the centres cannot come back from _tb.dat")
-    rep.part("c18_aadiag", sensitivity_violation=s2["violation"][1])
-    s3 = tlc.run_tlc("MC_SysStore.tla", mc_cfg((1,), (5,), (1,), 5, ["NpzRoundTripStrict"]), "c18_stale_npz", workers=4, timeout=900)
-    if not s3.get("violation"):
-        raise MachineryError("sensitivity self-test failed: a re-used npz directory must keep stale matrix files in the model")
-    obs = dict(sensitivity_violation=s3["violation"][1], **replay_counterexample(s3, wd))
-    rep.part("c18_stale_npz", **obs, note="observation, not claimed by C18: to_npz into an existing directory leaves the _XX_R_*.npz files of "
-             "matrices the saved system does not have, from_npz loads them")
+             note="model of the former defect of read_WCC_WT_format (splitting at n//2, repaired in 849f3dda): TLC must find HrRoundTrip "
+                  "violated; the behaviour of the counter-example is executed on the real code as an observation")
+    if thorough:
+        s2 = tlc.run_tlc("MC_SysStore.tla", mc_cfg((2,), (1,), (1,), 2, ["TbRoundTripNoPrecondition"], aazero=False), tname("aadiag"), workers=4, timeout=900)
+        if not s2.get("violation"):
+            raise MachineryError("sensitivity self-test failed: without the AADiagZero precondition the centres cannot come back from _tb.dat")
+        rep.part("c18_aadiag", sensitivity_violation=s2["violation"][1])
+        s3 = tlc.run_tlc("MC_SysStore.tla", mc_cfg((1,), (5,), (1,), 5, ["NpzRoundTripStrict"]), tname("stale_npz"), workers=4, timeout=900)
+        if not s3.get("violation"):
+            raise MachineryError("sensitivity self-test failed: a re-used npz directory must keep stale matrix files in the model")
+        obs = dict(sensitivity_violation=s3["violation"][1], **replay_counterexample(s3, wd))
+        rep.part("c18_stale_npz", **obs, note="observation, not claimed by C18: to_npz into an existing directory leaves the _XX_R_*.npz files of "
+                 "matrices the saved system does not have, from_npz loads them")
+    lap("sensitivity")
 
     # ---------------- code -> spec: recorded random round trips validated by TLC
-    nrec = 900 if thorough else 150
-    recs, meta, mdev = record_roundtrips(rep, rng, nrec, wd)
-    # binding self-test inside the same batch: a corrupted copy of an accepted record must be rejected
-    cand = [i for i, r in enumerate(recs) if r["fmt"] == "tb" and r["out"]["err"] == ""]
-    if not cand:
-        raise MachineryError("no successful _tb.dat record for the binding self-test")
-    br = copy.deepcopy(recs[cand[0]])
-    br["out"]["sys"]["mats"]["Ham"][0][0][0][0] += 1
-    stv, bad = ftable.validate_records("SysStoreRec.tla", REC_CFG, recs + [br], "c18", chunk=400)
+    nrec = 900 if thorough else 90
+    recs, meta, mdev = record_roundtrips(rep, vio, rng, nrec, wd)
+    lap("records_real")
+    # binding self-test inside the same batch: corrupted copies of the first records the real code completed; the copy of a
+    # record TLC accepts must be rejected (a record TLC rejects anyway proves nothing and is skipped)
+    cand = [i for i, r in enumerate(recs) if r["fmt"] == "tb" and r["out"]["err"] == ""][:4]
+    corrupted = []
+    for i in cand:
+        br = copy.deepcopy(recs[i])
+        br["out"]["sys"]["mats"]["Ham"][0][0][0][0] += 1
+        corrupted.append(br)
+    stv, bad = ftable.validate_records("SysStoreRec.tla", REC_CFG, recs + corrupted, tname("rec"), chunk=400)
     rep.add_tlc("c18_records", stv)
     rep.add_traces(len(recs))
-    if len(recs) not in bad:
-        raise MachineryError("binding self-test failed: corrupted round-trip record accepted")
-    if cand[0] in bad:
-        raise MachineryError(f"binding self-test inconclusive: the uncorrupted record is rejected too ({bad[cand[0]]})")
-    rep.part("binding_selftest", corrupted_record_rejected=bad.pop(len(recs)))
-    for i, clauses in bad.items():
+    bad_corrupted = {j: bad.pop(len(recs) + j, []) for j in range(len(corrupted))}
+    usable = [j for j, i in enumerate(cand) if not [c for c in bad.get(i, []) if c not in INFO_CLAUSES]]
+    if usable:
+        j = usable[0]
+        if not [c for c in bad_corrupted[j] if c not in INFO_CLAUSES]:
+            raise MachineryError("binding self-test failed: corrupted round-trip record accepted")
+        rep.part("binding_selftest", corrupted_record_rejected=bad_corrupted[j])
+    elif not cand and not rep.violations:
+        raise MachineryError("no successful _tb.dat record for the binding self-test")
+    else:
+        rep.part("binding_selftest", skipped="TLC rejects every candidate record itself (see the violations)")
+    conf = {}
+    for i, clauses in sorted(bad.items()):
         m = meta[i]
+        for c in clauses:
+            if c in INFO_CLAUSES:
+                conf[c] = conf.get(c, 0) + 1
+        clauses = [c for c in clauses if c not in INFO_CLAUSES]
+        if not clauses:
+            continue
         if m["fmt"] == "hr" and m["nw"] % 2 == 1 and not m["given"] and m["exception"]:
             key = "read_WCC_WT_format:odd_num_wann"
         else:
             key = f"{ {'tb': 'from_tb_file', 'hr': 'from_hr_file', 'npz': 'from_npz'}[m['fmt']] }:recorded"
         vio.violation(key, dict(meta=m, failing_clauses=clauses, record={k: v for k, v in recs[i].items() if k not in ("tb", "hr")}))
+    rep.part("model_conformance", records=len(recs), information_only=True,
+             records_where_the_code_differs_from_the_model=conf,
+             note="file_layout: tokens of the written file vs the model's table; reader_model: result of the real reader vs the model's "
+                  "reader on the real file; files_written: names of the .npz files of the directory")
     fm = {f: sum(1 for m in meta if m["fmt"] == f) for f in ("tb", "hr", "npz")}
-    if min(fm.values()) == 0 or not any(m["nw"] % 2 == 1 for m in meta if m["fmt"] == "hr"):
+    if not rep.violations and (min(fm.values()) == 0 or not any(m["nw"] % 2 == 1 for m in meta if m["fmt"] == "hr")
+                               or not any(m.get("conv2") is False for m in meta)):
         raise MachineryError(f"record classes missing: {fm}")
-    rep.sample(dict(record=meta[0]))
+    if meta:
+        rep.sample(dict(record=meta[0]))
+    lap("records_tlc")
+
+    # ---------------- printed precision: non-dyadic numbers (numeric, deciding at the precision of the formats)
+    pobs = precision_roundtrips(vio, rng, 240 if thorough else 45, wd)
+    for _ in range(pobs["cases"]):
+        rep.case(("precision", _))
+    rep.part("precision", numeric_only=True, **pobs, tolerance=dict(tb_hr_relative=TOL_TEXT, centre_file_absolute=TOL_WCC, lattice_and_npz="bit-exact"),
+             note="deviations are rounding of the formats (deterministic bound: %15.8e has a half-ulp of 5e-9 relative), not noise")
+    rep.part("soc_npz_observation", **soc_observation(rng, wd))
+    lap("precision")
+
     rep.part("numeric_only", what="energy and Berry curvature of original vs reloaded system at two k-points (evaluate_k)",
              comparisons=rp.numeric, max_deviation=max(rp.maxdev, mdev), tolerance=1e-8)
+    rep.part("layout_information", information_only=True, replay_store=rp.info, replay_files=fobs,
+             note="counts of differences that are not part of the statement: layout of the written files, order of R-vectors / group "
+                  "elements, further matrices returned, what the code does where the file does not carry what the call asks for")
+    if SKIPPED:
+        rep.part("skipped_private", **{k.replace(".", "_"): v for k, v in SKIPPED.items()})
     rep.part("violation_counts", **{k.replace(".", "_").replace(":", "_"): v for k, v in vio.count.items()})
+    rep.part("cpu_seconds", **timing, total=round(sum(timing.values()), 1))
     shutil.rmtree(wd, ignore_errors=True)
+    if not rep.violations:
+        for n in tlc_names:
+            shutil.rmtree(os.path.join(WORK, "tlc", n), ignore_errors=True)
+            for c0 in range(0, 2000, 400):
+                shutil.rmtree(os.path.join(WORK, "tlc", f"rec_{n}_{c0}"), ignore_errors=True)
+            shutil.rmtree(os.path.join(WORK, "records", n), ignore_errors=True)
     return rep.finish()
